@@ -53,10 +53,13 @@ func routinesFor(base []int, r, c int, graded bool, reduced bool) []plan {
 		sym := !graded && lat.IsSymmetric(base, n)
 		ps = append(ps, plan{"hessenberg", pick(product("U", "SetZero=false", "InSitu"), []string{"", "U", "SetZero=false", "U,SetZero=false", "U,InSitu"})})
 		ps = append(ps, plan{"qrAlgorithm", pick(product("U", "Eps", "InSitu"), []string{"", "U", "U,InSitu"})})
-		ps = append(ps, plan{"eigensystem", pick(append(product("Vec=false", "Eps", "InSitu"), "Buf", "Buf,Vec=false"), []string{"", "Vec=false", "InSitu", "Buf"})})
+		// qrU / qrU=false / qrSym: options of the QR algorithm handed to eigensystem, which passes on
+		// what it does not know (Eps is one of them) and drops ComputeU
+		ps = append(ps, plan{"eigensystem", pick(append(product("Vec=false", "Eps", "InSitu"), "Buf", "Buf,Vec=false", "qrU=false", "qrU,Vec=false"), []string{"", "Vec=false", "InSitu", "Buf", "qrU=false"})})
 		if sym {
 			ps = append(ps, plan{"qrAlgorithm", pick(withTok(product("U", "Eps", "InSitu"), "Sym"), []string{"Sym", "U,Sym", "U,InSitu,Sym"})})
-			ps = append(ps, plan{"eigensystem", pick(withTok(append(product("Vec=false", "Eps", "InSitu"), "Buf"), "Sym"), []string{"Sym", "Vec=false,Sym", "InSitu,Sym", "Buf,Sym"})})
+			ps = append(ps, plan{"eigensystem", pick(append(withTok(append(product("Vec=false", "Eps", "InSitu"), "Buf"), "Sym"), "Sym,qrSym", "qrSym", "Vec=false,Sym,qrSym", "Buf,Sym,qrSym", "InSitu,Sym,qrSym", "qrU=false,Sym"),
+				[]string{"Sym", "Vec=false,Sym", "InSitu,Sym", "Buf,Sym", "Sym,qrSym", "qrSym"})})
 			ps = append(ps, plan{"tridiag", pick(product("U", "Eps", "InSitu"), []string{"", "U", "U,InSitu"})})
 			ps = append(ps, plan{"cholesky", []string{"LDL,ForcePD", "LDL,ForcePD,InSitu"}})
 			if lat.IsSPD(base, n) {
@@ -280,13 +283,14 @@ func report(c *vf.Ctx, cs *Case, out *outcome, rank int64) {
 	seen := map[string]bool{}
 	for _, f := range out.fails {
 		var o, e string
-		if len(cs.Hist) > 0 {
-			o, e = minimiseHist(cs, out.class, f.what)
+		class := out.class
+		if len(cs.Hist) > 0 || cs.has("Junk") || cs.has("JunkNaN") {
+			o, e, class = minimiseHist(cs, out.class, f.what)
 		} else {
 			o, e = minimise(cs, f.what)
 			o = optName(o)
 		}
-		key := fmt.Sprintf("%s|%s|elem=%s|%s|%s", cs.Routine, o, e, out.class, f.what)
+		key := fmt.Sprintf("%s|%s|elem=%s|%s|%s", cs.Routine, o, e, class, f.what)
 		if seen[key] {
 			continue
 		}
@@ -366,6 +370,8 @@ func (r *runner) exec(cs *Case, rank int64, over map[string]bool, sample bool) {
 				r.confirmed[ck]++
 			} else {
 				c.Count("slow_but_within_full_budget", 1)
+				c.Outcome(cs.Routine + "|" + out.class + "|slow: over the stage-1 budget, within the full budget")
+				c.Sample(cs)
 			}
 		} else {
 			c.Count("excluded_over_stage1_budget_presumed_spin(after 2 confirmed per routine|class)", 1)
@@ -447,6 +453,10 @@ func main() {
 			"(square/symmetric/SPD by exact integer Sylvester test/full column rank by exact Gram determinant) × every option combination × {Float64,Real64} is executed; " +
 			"families: SPD 3x3 over the wide alphabet (diag 1,3,10,30,100; off-diag 0,±1,±3,±10,±30) and graded SPD 4x4 D·M·D through every Cholesky/LDL/ForcePD option product; ill-conditioned tall matrices (Läuchli [w;2^-k·I] 4x3 and 5x4, ones+2^-k·C 3x3 and 4x3, cond up to 2^34 by an exact Gram-matrix bound) through gramSchmidt/bidiag/svd; " +
 			"6x6 block triangular matrices (all orders of 1x1 and 2x2 diagonal blocks, both orientations) through hessenberg/qrAlgorithm/eigensystem; " +
+			"eigensystem option sets include the QR algorithm's options handed through it (qrAlgorithm.Epsilon, qrAlgorithm.Symmetric with and without eigensystem.Symmetric, qrAlgorithm.ComputeU true/false); " +
+			"histories and buffers, for every routine that takes an InSitu object (cholesky, gramSchmidt, hessenberg, tridiag, bidiag, svd, qrAlgorithm, eigensystem) on 1x1 {-2..2}, 2x2 {-1,0,1}, 3x3 {0,1}, 3x2 {0,1}, SPD 3x3 {-2..2}, symmetric 4x4 {0,1} with zero diagonal " +
+			"(thorough: 2x2 {-2..2}, symmetric 3x3 {-1,0,1}, 4x2 {0,1}, symmetric 4x4 {0,1}): every admissible option set with caller-allocated result buffers pre-filled with junk (thorough: also NaN); every ordered pair (option set of an earlier call, option set of the judged call) on one InSitu object " +
+			"with the earlier call on a fixed dense matrix of the class its options need or on the same matrix (thorough: or on diag(1..n)), and the same pairs with the caller replacing the result buffers by junk-filled ones before the judged call; thorough: every three-call history (n<=3); " +
 			"a case is non-trivial when the routine returned factors and the input did not already have the promised middle-factor structure (diagonal/triangular/bidiagonal/tridiagonal/Hessenberg/identity)",
 		Assume: []string{
 			"tolerance 1e-9·max(1,‖A‖_F) for defining equations; eigenvalues compared with (1e-9)^(1/k)·‖A‖ for a root of exact multiplicity k",
@@ -457,6 +467,10 @@ func main() {
 			"eigenvector residuals are checked for every returned value that can only be a real eigenvalue; values that may be the real part of a complex pair are skipped",
 			"graded inputs: backward-error oracles only (reconstruction, orthogonality, residual relative to ‖D·A·D⁻¹‖)",
 			"InSitu buffers are 'stale': they carry the contents of a previous call on a different dense matrix of the same shape (InitializeH/InitializeU set as newton.go does)",
+			"histories: all calls of a history have the shape of the judged input (the routines reject buffers of another shape); the judged call is held to exactly the oracles of a first call; a history whose earlier call fails is discarded (that call is judged where it is the last one); qrAlgorithm InSitu objects have InitializeH set (documented way to recycle them)",
+			"a result buffer (L, D, Q, R, U, V, eigenvalues, eigenvectors) that the caller put into the InSitu object must hold exactly the factor that the call returns; work copies of the input (H, A) are pre-filled too but only the returned middle factor is judged",
+			"real Schur form: a 2x2 diagonal block whose sub-diagonal entry exceeds the tolerance must have a discriminant (a-d)²+4bc < 0 in float64 (plain and fused evaluation); discriminant exactly 0 is a double real eigenvalue and a violation. An eigenvector failure of eigensystem is attributed to 'schur-form-real-2x2-block' when the plain QR algorithm leaves such a block for the input, and only a numerically complex block (negative discriminant) excuses a failing eigenvector of a repeated root",
+			"triangular factors: entries on the wrong side of the diagonal are judged by the structure oracle; the reconstruction oracle uses the triangle that is the factor",
 			"inputs on which a routine exceeds 2e5·(n+1)^3 loop ticks are excluded here and belong to C20",
 		},
 		SoftLimit: map[string]time.Duration{"quick": 100 * time.Second, "thorough": 13 * time.Minute},
